@@ -445,7 +445,7 @@ func TestVerifC36(t *testing.T) {
 			th.Signal()
 		}
 		maxL := len(tableF) - 1
-		nSig := vfScale(100000, 20000000)
+		nSig := vfScale(400000, 20000000) // 100k per signaller was too few to hit the window of seeded/C36c reliably
 		var stop atomic.Bool
 		var outOfRange, panics, reads atomic.Int64
 		var firstBad atomic.Value
@@ -465,7 +465,7 @@ func TestVerifC36(t *testing.T) {
 			sg.Add(1)
 			go func() {
 				defer sg.Done()
-				for i := 0; i < nSig; i++ {
+				for i := 0; i < nSig && outOfRange.Load() == 0 && panics.Load() == 0; i++ { // stop early once a violation has been seen
 					th.Signal()
 				}
 			}()
